@@ -70,7 +70,10 @@ func fixBlock(from uintptr, block []byte, trampoline uintptr,
 			if l := copy(copyBlock, block); l != len(block) {
 				return nil, 0, errors.New("copy block array error")
 			}
-			fixedInsData := fixIns(ins, pos, copyBlock, blockSize, (uint64)(from), trampoline)
+			// 之前的指令可能已经被加长(短跳转扩展为长跳转), 当前指令在 trampoline 中的实际位置是
+			// trampoline+len(fixedBlock) 而不是 trampoline+pos, 重定位时需要把已增长的字节数算进去
+			fixedInsData := fixIns(ins, pos, copyBlock, blockSize, (uint64)(from),
+				trampoline+uintptr(len(fixedBlock)-pos))
 			fixedBlock = append(fixedBlock, fixedInsData...)
 
 			logger.Debugf("[%d]>[%d] 0x%x:\t%s\t\t%s\t\t%s", ins.Len, len(fixedInsData),
